@@ -371,6 +371,8 @@ func (p *Path) specIntrinsic(n string, args []Value) (Value, bool) {
 		lit, val := args[0].(*Term), args[1].(*Term)
 		raw := mkAnd(mkEq(lit, mkConcat(mkStr("`"), val, mkStr("`"))), canbq(val))
 		return mkOr(raw, mkEq(lit, goquote(val))), true
+	case "specSameCode":
+		return mkEq(args[0].(*Term), args[1].(*Term)), true
 	case "specQuote":
 		return goquote(args[0].(*Term)), true
 	case "specGofmt":
